@@ -12,6 +12,7 @@ import Rmk.Spec.Obj
 import Rmk.Impl.Virtual
 import Rmk.Impl.Heap
 import Rmk.Impl.ByteLength
+import Rmk.Impl.Iters
 import Driver.Sexp
 namespace Driver
 open Rmk
@@ -23,6 +24,11 @@ def join (xs : List String) : String := String.intercalate ";" xs
 def hexO (o : Option (List UInt8)) : String := optStr hexOf o
 def rootO (o : Option Node) : String := optStr (fun n => hexOf (n.root H)) o
 def b01 (b : Bool) : String := if b then "1" else "0"
+
+/-- structural digest of a tree (shape AND leaves): drift stream only, never gating -/
+def shapeDigest : Node → List UInt8
+  | .leaf c => (Sha256.sha256 (ByteArray.mk ((76 :: c).toArray))).toList
+  | .pair l r => (Sha256.sha256 (ByteArray.mk ((80 :: (shapeDigest l ++ shapeDigest r)).toArray))).toList
 
 /-- number of pair nodes of a tree -/
 def pairCount : Node → Nat
@@ -65,6 +71,26 @@ def targetGindex (t : Ty) (n : Node) (op : Impl.Op) : Option Nat :=
   | .union _ _, .change _ _ => some 1
   | _, _ => none
 
+/-- the content of a view read through the ITERATORS at the top level (`readonly_iter()` / `__iter__`:
+    PackedIter, BitfieldIter, NodeIter + element views), nested values through the view API -/
+def iterRead (t : Ty) (n : Node) : Option Val :=
+  match t with
+  | .vector et len =>
+    if et.isBasic then (Impl.packedIter H et n (Impl.treeDepth t) len).map .seq
+    else (Impl.nodeIter n (Impl.treeDepth t) len).bind fun ns => (ns.mapM (Impl.readVal H et)).map .seq
+  | .list et _ =>
+    (Impl.listLength H n).bind fun len =>
+      if et.isBasic then (Impl.packedIter H et n (Impl.treeDepth t) len).map .seq
+      else (Impl.nodeIter n (Impl.treeDepth t) len).bind fun ns => (ns.mapM (Impl.readVal H et)).map .seq
+  | .bitvector len => (Impl.bitfieldIter H n (Impl.treeDepth t) len).map .bits
+  | .bitlist _ =>
+    (Impl.listLength H n).bind fun len =>
+      (getLeft n).bind fun c => (Impl.bitfieldIter H c (Impl.contentsDepth t) len).map .bits
+  | .container fs =>
+    (Impl.nodeIter n (Impl.treeDepth t) fs.length).bind fun ns =>
+      ((ns.zip fs).mapM fun (p : Node × Ty) => Impl.readVal H p.2 p.1).map .seq
+  | _ => Impl.readVal H t n
+
 def runVal (t : Ty) (v : Val) : String :=
   let wt := t.wf && WT t v
   let n := Impl.construct H t v
@@ -81,6 +107,7 @@ def runVal (t : Ty) (v : Val) : String :=
     kv "i.cnt" (optStr toString (ser.map (·.2))),
     kv "i.read" (optStr valStr (n.bind (Impl.readVal H t))),
     kv "i.vbl" (optStr toString (n.bind (Impl.valueByteLength H t))),
+    kv "i.iter" (optStr valStr (n.bind (iterRead t))),
     kv "i.dec" (optStr (fun (p : Val × List UInt8) => valStr p.1 ++ "/" ++ toString p.2.length) dec),
     kv "s.obj" (if wt then Obj.toJson (Obj.toObj t v) else "-"),
     kv "i.fromobj" (if wt then optStr valStr (Obj.fromObj t (Obj.jsonNorm (Obj.toObj t v))) else "-")]
@@ -122,6 +149,7 @@ def runHist (t : Ty) (v0 : Val) (ops : List Impl.Op) : String :=
         kv (p ++ ".iroot") (rootO n'),
         kv (p ++ ".iread") (optStr valStr (n'.bind (Impl.readVal H t))),
         kv (p ++ ".ibytes") (hexO ((n'.bind (Impl.serTree H t)).map (·.1))),
+        kv (p ++ ".ishape") (optStr (fun x => hexOf ((shapeDigest x).take 8)) n'),
         kv (p ++ ".bound") (toString (costBound t op)),
         kv (p ++ ".tgt") (optStr toString (n.bind fun nn => targetGindex t nn op))]
       go (k + 1) v' n' rest (out.reverse ++ acc)
